@@ -34,7 +34,7 @@ func TestMain(m *testing.M) {
 		"text decoders (from_utf8/16) replace invalid sequences by U+FFFD; no error is asserted for them. to_iso8859_1 of a rune > U+00FF must fail",
 		"from_radix is asserted only for digits below the base; characters outside the 64 character table must fail; bases outside 2..64 are outside the domain",
 		"YAML/TOML integers are limited to int64 (the libraries print larger ones as strings), TOML has no null and no empty root, YAML and XML need an object/array root, YAML loses the sign of -0.0 (numbers are compared numerically everywhere)",
-		"CSV: rows are rectangular, no row is a single empty field, the first field of a row does not start with the comment character '#' (to_csv has no way to quote it for from_csv's default comment option); from_csv of ragged rows must not return a value",
+		"CSV: rows are rectangular, no row is a single empty field, the first field of a row does not start with the comment character '#' (to_csv has no way to quote it for from_csv's default comment option); from_csv of records of different length must fail; an unterminated quote is read leniently on purpose (LazyQuotes) and not asserted",
 		"XML: names are plain (no colon/xmlns), text and comments are trimmed and not only whitespace, characters are XML Chars; object form is compared after sorting siblings by name unless #seq is given; the array form is compared as from_xml({array:true}) 3-tuples. from_xml is non-strict by design, only trailing data after the root is asserted to fail",
 		"to_jsonl of an empty array gives an empty text which from_jsonl rejects on purpose ('not lines found'); arrays are non-empty",
 	)
@@ -171,7 +171,8 @@ func evalSub(c *sub) ([]slot, error) {
 			return nil, err
 		}
 	}
-	pendingCase = map[string]any{"k": c.Kind, "x": c.X, "p": c.P}
+	// fq gets its own copy: some conversions change their input in place
+	pendingCase = map[string]any{"k": c.Kind, "x": deepCopy(c.X), "p": deepCopy(c.P)}
 	s.n++
 	v, ok := s.iter.Next()
 	if !ok {
@@ -203,6 +204,26 @@ func evalSub(c *sub) ([]slot, error) {
 		}
 	}
 	return res, nil
+}
+
+func deepCopy(v any) any {
+	switch v := v.(type) {
+	case []any:
+		out := make([]any, len(v))
+		for i, e := range v {
+			out[i] = deepCopy(e)
+		}
+		return out
+	case map[string]any:
+		out := make(map[string]any, len(v))
+		for k, e := range v {
+			out[k] = deepCopy(e)
+		}
+		return out
+	case *big.Int:
+		return new(big.Int).Set(v)
+	}
+	return v
 }
 
 type failure struct{ sig, msg string }
@@ -387,17 +408,24 @@ func numOf(v any) *big.Float {
 	return nil
 }
 
-// eqJSON compares two jq values: numbers numerically (exact), strings
-// bytewise, containers structurally.  It returns the path of the first
-// difference.
+// eqJSON compares an expected jq value a with a result b: strings bytewise,
+// containers structurally, numbers exactly -- except that an expected float64
+// is matched by any number that converts to the same float64 (a float64 above
+// 2^53 is printed with its shortest digits and read back as the integer those
+// digits spell; jq's == treats the two as equal).  It returns the path of the
+// first difference.
 func eqJSON(a, b any) (bool, string) { return eqJSONAt(a, b, "") }
 
 func eqJSONAt(a, b any, path string) (bool, string) {
 	if na, nb := numOf(a), numOf(b); na != nil || nb != nil {
-		if na == nil || nb == nil || na.Cmp(nb) != 0 {
+		if na == nil || nb == nil {
 			return false, path
 		}
-		return true, ""
+		if af, isFloat := a.(float64); isFloat {
+			bf, _ := nb.Float64()
+			return af == bf, path
+		}
+		return na.Cmp(nb) == 0, path
 	}
 	switch av := a.(type) {
 	case nil:
